@@ -23,7 +23,7 @@ def run_qry(tier, seed):
         raise core.Machinery("MC_Query_refute: expected a counterexample to NoSkip, got %r" % (ref.invariant_violated,))
     chk.notes["design_results"] = {
         "RealPathFound": "holds: with unique field names per struct a path that exists is found and it is that field",
-        "FoundHasLastName": "holds", "MIODSound": "holds", "CategoriesPartition": "holds: every node is in exactly one primary category of get(), once",
+        "FoundHasLastName": "holds", "MIODSound": "holds", "VisitAgreesWithBitsOf": "holds: for fixed-size, well-kinded types the leaves TypeVisitor.visit reaches add up to FcpSchema!BitsOf", "VisitRaisesOnlyOnBadReference": "holds", "CategoriesPartition": "holds: every node is in exactly one primary category of get(), once",
         "NoSkip": "refuted: get_xpath skips an intermediate name that the current struct does not have (A:nosuch/x returns A.x)"}
     head = [o for o in res.out if o["kind"] == "queries"]
     if len(head) != 1:
@@ -32,6 +32,21 @@ def run_qry(tier, seed):
     lines = sorted((o for o in res.out if o["kind"] != "queries"), key=lambda o: json.dumps(o, sort_keys=True))
     if not any(o["kind"] == "xpath" for o in lines) or not any(o["kind"] == "impl" for o in lines):
         raise core.Machinery("Gen_Query emitted no cases")
+    from fcp.type_visitor import TypeVisitor
+
+    class Recorder(TypeVisitor):
+        """the free visitor: every hook returns its own arguments (the call tree of visit)"""
+        def struct(self, t, fields, name): return {"v": "struct", "name": name, "t": t.name, "fields": fields}
+        def enum(self, t, name): return {"v": "enum", "name": name, "t": t.name}
+        def unsigned(self, t, name): return {"v": "unsigned", "name": name, "w": t.get_length()}
+        def signed(self, t, name): return {"v": "signed", "name": name, "w": t.get_length()}
+        def float(self, t, name): return {"v": "float", "name": name}
+        def double(self, t, name): return {"v": "double", "name": name}
+        def string(self, t, name): return {"v": "string", "name": name}
+        def array(self, t, inner, name): return {"v": "array", "name": name, "n": t.size, "inner": inner}
+        def dynamic_array(self, t, inner, name): return {"v": "dynamic_array", "name": name, "inner": inner}
+        def optional(self, t, inner, name): return {"v": "optional", "name": name, "inner": inner}
+
     outcomes = set()
     for o in lines:
         sch = o["sch"]
@@ -71,6 +86,18 @@ def run_qry(tier, seed):
                                   {"schema": sch, "xpath": text, "specified": want, "observed": got})
                 elif isinstance(want, list):
                     chk.distinct(json.dumps([sch["structs"], text]))
+        elif o["kind"] == "visit":
+            for t, want in zip(o["asked"], o["terms"]):
+                chk.count(1, traces=1)
+                try:
+                    got = Recorder(fcp).visit(build.mk_type(t), "r")
+                except Exception as e:
+                    got = {"v": "raise"}
+                if got != want:
+                    chk.violation("type_visitor.visit:%s" % ("raised" if got == {"v": "raise"} else "call-tree-differs"),
+                                  {"schema": sch, "type": t, "specified": want, "observed": got})
+                elif want != {"v": "raise"}:
+                    chk.distinct(json.dumps([sch["structs"], t]))
         elif o["kind"] == "cat":
             names = {}
             for i, s in enumerate(fcp.structs):
@@ -140,7 +167,7 @@ def run_qry(tier, seed):
     chk.assumptions += ["names are words over [A-Za-z] or empty (the text form root:p1/p2 is then parsed back unambiguously)",
                         "trees of 2-3 structs with 1-2 fields, one enum; paths of at most %s names" % ("2" if tier == "quick" else "3"),
                         "the ORDER of get_protocols() is that of a Python set and is not specified"]
-    return chk.finish("laws of Query.tla as TLC invariants (RealPathFound, FoundHasLastName, MIODSound, CategoriesPartition), NoSkip refuted; every "
+    return chk.finish("laws of Query.tla as TLC invariants (RealPathFound, FoundHasLastName, MIODSound, CategoriesPartition, VisitAgreesWithBitsOf, VisitRaisesOnlyOnBadReference), NoSkip refuted; every "
                       "tree x query (get_xpath through the Xpath text form; get_matching_impl / get_matching_impls / "
-                      "get_matching_impls_or_default / get_protocols; get(category) for the eight categories and two unknown ones) evaluated with the real FcpV2 object and compared by object "
+                      "get_matching_impls_or_default / get_protocols; get(category) for the eight categories and two unknown ones; TypeVisitor.visit with a recording visitor) evaluated with the real FcpV2 object and compared by object "
                       "identity; distinct = (tree, query) with a found field / a non-empty selection")
